@@ -247,7 +247,15 @@ def r4_utf8_and_status(ctx):
         ctx.bad("uncaptured-null", r.where(), "stdout()/stderr()/exit_code() no longer map an absent value to null")
 
 
-RULES = [("C16-R1", r1_recheck_after_join), ("C16-R2", r2_bounded_reader), ("C16-R3", r3_kill), ("C16-R4", r4_utf8_and_status)]
+def r6_captured_text_outlives_the_frame(ctx):
+    """The captured stdout / stderr belong to the result value for as long as the script keeps it.  The result's handle is
+    persistent; the text must be allocated on the same arena, or it is recycled at the next frame reset and the script reads
+    something the child never wrote (shared with C02-R5)."""
+    from .c02 import host_colocation
+    host_colocation(ctx)
+
+
+RULES = [("C16-R1", r1_recheck_after_join), ("C16-R2", r2_bounded_reader), ("C16-R3", r3_kill), ("C16-R4", r4_utf8_and_status), ("C16-R5", r6_captured_text_outlives_the_frame)]
 
 EXPLANATION = (
     "Ordering and wiring clauses only; thread schedules are not decidable in this family. R1: in join_capture the reader is "
